@@ -463,7 +463,8 @@ theorem group_component_is_projection (parts : String → Nat) :
     (∀ (lg : Group) (g g' : Groups.Group) (id : String) (e : Nat), Refines lg g →
       Groups.leave parts g id e = .ok g' →
       Refines { lg with members := lg.members.filter (fun m => decide (m.1 ≠ id)), epoch := e } g') ∧
-    (∀ (cfg : Cfg) (lg : Group) (g : Groups.Group) (s : String) (e : Nat), cfg.emptyHeapNoEpoch = false →
+    (∀ (cfg : Cfg) (lg : Group) (g : Groups.Group) (s : String) (e : Nat),
+      cfg.emptyHeapNoEpoch = Gen.Groups.emptyHeapKeepsEpoch →
       Proofs.Groups.Inv parts g → Refines lg g →
       Refines (notifyGroup cfg s e lg) (Groups.applyOp parts g (.deleted s e))) ∧
     (∀ (gp : GroupP) (r : Bool), (gp.members.map (·.1)).Nodup →
